@@ -21,6 +21,7 @@ import (
 	"sync/atomic"
 	"time"
 
+	"rgverif/internal/cluster"
 	"rgverif/internal/common"
 	"rgverif/internal/evidence"
 	"rgverif/internal/findings"
@@ -288,6 +289,108 @@ func concurrent(o *common.Opts, srv *procs.Server, dbs, conns, ops int, seed int
 	return int(total), int(hops)
 }
 
+// clusterProbe: cluster mode serves one database whatever the configuration files say (the cluster configuration
+// object is given a "Databases" key in several spellings, the main configuration file asks for 16). Whatever SELECT
+// answers there, one connection's SELECT must not move another connection, and a database that was selected must be
+// a keyspace of its own.
+func clusterProbe(o *common.Opts) (probes int, note string) {
+	var wg sync.WaitGroup
+	var pmu sync.Mutex
+	for k, extra := range []string{`"Databases": 4`, `"databases": 16`, `"DATABASES": 2`, ""} {
+		wg.Add(1)
+		go func(k int, extra string) {
+			defer wg.Done()
+			p, n := clusterProbeOne(o, k, extra)
+			pmu.Lock()
+			probes += p
+			if n != "" {
+				note = n
+			}
+			pmu.Unlock()
+		}(k, extra)
+	}
+	wg.Wait()
+	return probes, note
+}
+
+func clusterProbeOne(o *common.Opts, k int, extra string) (probes int, note string) {
+	{
+		dir := filepath.Join(o.Work, fmt.Sprintf("c20cl-%d", k))
+		cl, err := cluster.New(dir, 1, false, nil)
+		if err != nil {
+			return probes, "cluster layout failed: " + err.Error()
+		}
+		cl.ExtraJSON = extra
+		if err := cl.StartAll(); err != nil || !cl.WaitAllWritable(90*time.Second) {
+			cl.Stop()
+			return probes, "one-node cluster did not become writable"
+		}
+		addr := cl.Nodes[0].Addr()
+		a, errA := respc.Dial(addr, 10*time.Second)
+		b, errB := respc.Dial(addr, 10*time.Second)
+		if errA != nil || errB != nil {
+			cl.Stop()
+			return probes, "dial failed"
+		}
+		var trace []string
+		do := func(who string, c *respc.Client, args ...string) respc.Value {
+			v, err := c.Do(args...)
+			trace = append(trace, fmt.Sprintf("%s %v -> %s %v", who, args, v.String(), errStr(err)))
+			return v
+		}
+		bad := func(detail, sig string) {
+			report(witness{Kind: "cluster-select", Detail: fmt.Sprintf("one-node cluster, cluster configuration extra key %q: %s", extra, detail), Trace: append([]string{}, trace...), Sig: "cluster-select|" + sig})
+		}
+		do("A", a, "SET", "probe:a", "a0")
+		if v := do("B", b, "GET", "probe:a"); string(v.Str) != "a0" {
+			bad("two fresh connections do not share database 0", "fresh connections differ")
+		}
+		for _, idx := range []string{"1", "3", "15"} {
+			r := do("A", a, "SELECT", idx)
+			probes++
+			// B never selected anything
+			if v := do("B", b, "GET", "probe:a"); string(v.Str) != "a0" {
+				bad(fmt.Sprintf("after connection A sent SELECT %s (answered %s) connection B, which selected nothing, no longer sees its key", idx, r.String()), "another connection was moved")
+				break
+			}
+			tag := "a-in-" + idx
+			do("A", a, "SET", "probe:where", tag)
+			vb := do("B", b, "GET", "probe:where")
+			va := do("A", a, "GET", "probe:a")
+			if r.Kind == '+' {
+				// accepted: A is in another keyspace
+				if string(vb.Str) == tag {
+					bad(fmt.Sprintf("SELECT %s was accepted on connection A, yet its write is visible to connection B in database 0", idx), "selected database leaks")
+					break
+				}
+				if !va.Nil {
+					bad(fmt.Sprintf("SELECT %s was accepted on connection A, yet A still reads database 0", idx), "accepted SELECT without effect")
+					break
+				}
+				do("A", a, "SELECT", "0")
+			} else if string(vb.Str) != tag || string(va.Str) != "a0" {
+				bad(fmt.Sprintf("SELECT %s was refused (%s) but connection A no longer works on database 0", idx, r.String()), "refused SELECT changed the selection")
+				break
+			}
+		}
+		a.Close()
+		b.Close()
+		if len(cl.Alive()) == 0 {
+			bad("the node exited: "+cl.Nodes[0].Srv.CrashLine(), "node exited")
+		}
+		cl.Stop()
+		_ = os.RemoveAll(dir)
+	}
+	return probes, ""
+}
+
+func errStr(err error) string {
+	if err == nil {
+		return ""
+	}
+	return err.Error()
+}
+
 func main() {
 	o := common.Parse(prop)
 	defer o.Cleanup()
@@ -308,6 +411,10 @@ func main() {
 		if n != "" {
 			note = n
 		}
+	}
+	clProbes, clNote := clusterProbe(o)
+	if clNote != "" {
+		note = clNote
 	}
 	histories, opsDone, hops := 0, 0, 0
 	raceReports := 0
@@ -385,14 +492,15 @@ func main() {
 			"distinct_nontrivial": probes + hops,
 			"rule": "SELECT argument sweep (18 spellings x 3 rounds x database counts {1,2,3,5,16,20,33}, configuration file laid out four ways: LF with final newline, no final newline, CRLF with blank lines and no final newline as in the shipped file, directive first in upper case), each followed by a probe write located from a fresh connection; concurrent histories of 2-8 connections x 300+ operations hopping between databases " +
 				"and writing tagged values (connection, database, sequence) to the same key name; non-trivial = sweep probes + database hops performed inside concurrent histories",
-			"samples":               []any{"SELECT \"01\" then SET probe -> located in exactly one database", "c3 SELECT 5; c3 SET k c3:d5:s17; c1 SELECT 2; c3 GET k -> must carry d5"},
-			"select_probes":         probes,
-			"concurrent_histories":  histories,
-			"concurrent_operations": opsDone,
-			"database_hops":         hops,
-			"race_reports":          raceReports,
-			"known_finding_hits":    knownHits,
-			"violation_samples":     vs,
+			"samples":                    []any{"SELECT \"01\" then SET probe -> located in exactly one database", "c3 SELECT 5; c3 SET k c3:d5:s17; c1 SELECT 2; c3 GET k -> must carry d5"},
+			"cluster_mode_select_probes": clProbes,
+			"select_probes":              probes,
+			"concurrent_histories":       histories,
+			"concurrent_operations":      opsDone,
+			"database_hops":              hops,
+			"race_reports":               raceReports,
+			"known_finding_hits":         knownHits,
+			"violation_samples":          vs,
 		},
 		Assumptions: []string{"\"+1\", \"01\" and space-padded indexes are an open corner (accepted as that index or refused)", "TCP against the real binary; the race build is used in the thorough tier"}}
 	if note != "" {
